@@ -163,6 +163,8 @@ type job struct {
 	Kind    string // "names" | "collision" | "known"
 	Pair    [3]string
 	Known   string
+	// CliClash: the cli may refuse the document because two operations of different tags share a go name
+	CliClash bool
 }
 
 type jobResult struct {
@@ -177,6 +179,7 @@ type jobResult struct {
 	MergedDefs [][2]string
 	Handlers   int
 	ClientOps  int
+	CliRefused bool
 }
 
 var reHandler = regexp.MustCompile(`\.handlers\["([A-Z]+)"\]\["((?:[^"\\]|\\.)*)"\] = `)
@@ -229,6 +232,14 @@ func runJob(bin, work string, j *job) (res *jobResult) {
 		r := gorun.Swagger(bin, dir, 240*time.Second, args...)
 		if r.Exit < 0 {
 			die("cannot run %s: %s", bin, r.Output)
+		}
+		if r.Exit != 0 && tgt == "cli" && j.CliClash && strings.Contains(r.Output, "are both rendered as go name") {
+			// the cli has one package for the commands of all operations: homonymous operations of different tags are refused there
+			// (an error, not code with one command overwritten); server, client and models must still be generated and built
+			_ = os.RemoveAll(filepath.Join(dir, "cli"))
+			_ = os.RemoveAll(filepath.Join(dir, "cmd", "cli"))
+			res.CliRefused = true
+			continue
 		}
 		if r.Exit != 0 {
 			res.GenExit = r.Exit
@@ -659,6 +670,14 @@ func main() {
 		}
 		jobs = append(jobs, &job{Spec: sp, Kind: "names"})
 	}
+	// operations of different tags whose ids give the same Go name (legal: each lives in the package of its tag), each with
+	// anonymous body and response schemas (rendered as types next to the operation), under the pre-processing modes
+	for _, fl := range [][]string{{}, {"--with-expand"}, {"--with-flatten=full"}} {
+		sp := newSpec()
+		sp.ExtraTagged = [][4]string{{"POST", "/orders/search", "search-items", "orders"}, {"POST", "/products/search", "search_items", "products"},
+			{"POST", "/orders/find", "findThings", "orders"}, {"PUT", "/stock/find", "FindThings", "stock"}}
+		jobs = append(jobs, &job{Spec: sp, Kind: "names", Flags: fl, Mode: strings.Join(fl, " "), CliClash: true})
+	}
 	// dedicated single-name specs for the listed findings
 	if *knownRuns > 0 && len(known) > *knownRuns {
 		off := r.Intn(len(known))
@@ -876,7 +895,21 @@ func main() {
 		for _, o := range j.Spec.opsWithIDs() {
 			inputs = append(inputs, opKeyOf(o[0], o[1]), pascalize(o[2]))
 		}
-		pc = append(pc, fmt.Sprintf("CP {| p_tbl := %s; p_ops := [%s]; p_defs := [%s]; p_props := [%s]; p_ok := %s |}", uniTable(inputs...), strings.Join(osp, "; "), strings.Join(ds, "; "), strings.Join(ps, "; "), b2(res.GenExit == 0)))
+		// the package of each operation (one per tag; every operation in one package under --skip-tag-packages); the verdict of the
+		// cli is taken apart: it compares go names across packages
+		var pk []string
+		skipTags := false
+		for _, f := range j.Flags {
+			skipTags = skipTags || f == "--skip-tag-packages"
+		}
+		if !skipTags {
+			for _, o := range j.Spec.opPackages() {
+				pk = append(pk, fmt.Sprintf("((%s, %s), %s)", runesCoq(o[0]), runesCoq(o[1]), runesCoq(o[2])))
+			}
+		}
+		okPkg := res.GenExit == 0 || strings.HasPrefix(res.GenOut, "cli:")
+		okCli := res.GenExit == 0 && !res.CliRefused
+		pc = append(pc, fmt.Sprintf("CP {| p_tbl := %s; p_ops := [%s]; p_defs := [%s]; p_props := [%s]; p_ok := %s; p_pkgs := [%s]; p_cli_ok := %s |}", uniTable(inputs...), strings.Join(osp, "; "), strings.Join(ds, "; "), strings.Join(ps, "; "), b2(okPkg), strings.Join(pk, "; "), b2(okCli)))
 		planCases++
 	}
 	if len(pc) > 0 {
